@@ -216,6 +216,13 @@ def run_check(prop: str, tier: str, seed: int, workdir: str, args) -> int:
             shard_results.append(out["result"])
 
     m = merge(shard_results)
+    if hasattr(mod, "finalize"):
+        for b in mod.finalize(m):
+            key = b["check"] + "|" + canon(b["features"])
+            if key in m["buckets"]:
+                m["buckets"][key]["count"] += 1
+            else:
+                m["buckets"][key] = b
     for b in m["buckets"].values():
         b["property"] = prop
         f = match_known(b, known)
